@@ -1,1 +1,484 @@
-fn main() { eprintln!("engine not built yet"); std::process::exit(2); }
+//! C01 / C02 — the real `Segtree` explored by breadth-first search over its own node array.
+//!
+//! C01: constructors, set, modify, ask, debug — every action in every reached state, every returned
+//!      aggregate compared with the left-to-right fold of a plain array.
+//! C02: the same state spaces (so every configuration of pending modifiers is reached) with the two
+//!      boundary searches as judged transitions.
+
+mod alg;
+
+use alg::*;
+use rlib_segtree::segtree_items::{Combinator, MaxAdd, MinAdd, SumAdd};
+use rlib_segtree::Segtree;
+use serde::{Deserialize, Serialize};
+use std::cell::RefCell;
+use vcore::*;
+
+#[derive(Clone, Debug, Serialize, Deserialize)]
+enum Act {
+    FromSlice(Vec<u8>),
+    FromIter(Vec<u8>),
+    New(u8),
+    Set(u8, u8),
+    Modify(u8, u8, u8),
+    Ask(u8, u8),
+    Lb(u8, Pred),
+    LbRev(u8, Pred),
+    Debug,
+}
+
+struct St<A: Alg> {
+    tree: Segtree<A::T, A::M>,
+    model: Vec<A::E>,
+    fresh: u32,
+}
+
+impl<A: Alg> Clone for St<A> {
+    fn clone(&self) -> Self {
+        St { tree: self.tree.clone(), model: self.model.clone(), fresh: self.fresh }
+    }
+}
+
+#[derive(Clone, Copy, PartialEq)]
+enum Mode {
+    /// judge constructors / set / modify / ask / debug; no searches
+    C01,
+    /// judge the searches; the other actions only generate states
+    C02,
+}
+
+struct Sys<A: Alg> {
+    n: usize,
+    mode: Mode,
+    /// which constructor families start the search
+    all_inits: bool,
+    _p: std::marker::PhantomData<A>,
+}
+
+impl<A: Alg> Sys<A> {
+    fn new(n: usize, mode: Mode, all_inits: bool) -> Self {
+        Sys { n, mode, all_inits, _p: std::marker::PhantomData }
+    }
+
+    fn check_all_singles(&self, s: &St<A>) -> Result<(), String> {
+        let mut t = s.tree.clone();
+        for i in 0..self.n {
+            let got = A::observe(&t.ask(i, i));
+            let exp = A::fold(&s.model[i..=i]);
+            if got != exp {
+                return Err(format!("element {i}: ask({i},{i}) would return {:?}, the plain array holds {:?}", got, exp));
+            }
+        }
+        // the whole range as well (root aggregate)
+        let got = A::observe(&t.ask(0, self.n - 1));
+        let exp = A::fold(&s.model[..]);
+        if got != exp {
+            return Err(format!("ask(0,{}) would return {:?}, fold of the plain array is {:?}", self.n - 1, got, exp));
+        }
+        Ok(())
+    }
+}
+
+fn fp<T: std::fmt::Debug>(x: &T) -> u64 {
+    fnv(format!("{:?}", x).as_bytes())
+}
+
+impl<A: Alg> System for Sys<A> {
+    type State = St<A>;
+    type Action = Act;
+
+    fn inits(&self) -> Vec<Act> {
+        let k = A::n_elems();
+        let mut v = vec![];
+        // all element vectors of length n over the element alphabet
+        let total = (k as u64).pow(self.n as u32);
+        let mut vecs = vec![];
+        for code in 0..total {
+            let mut c = code;
+            let mut xs = vec![];
+            for _ in 0..self.n {
+                xs.push((c % k as u64) as u8);
+                c /= k as u64;
+            }
+            vecs.push(xs);
+        }
+        for xs in &vecs {
+            v.push(Act::FromIter(xs.clone()));
+        }
+        if self.all_inits {
+            for xs in &vecs {
+                v.push(Act::FromSlice(xs.clone()));
+            }
+            for e in 0..k {
+                v.push(Act::New(e as u8));
+            }
+        }
+        v
+    }
+
+    fn init(&self, a: &Act) -> Result<St<A>, String> {
+        let mut fresh = 0u32;
+        let (tree, model) = match a {
+            Act::FromSlice(xs) => {
+                let model: Vec<A::E> = xs.iter().map(|&i| A::elem(i as usize, &mut fresh)).collect();
+                let items: Vec<A::T> = model.iter().map(A::item).collect();
+                (Segtree::<A::T, A::M>::from_slice(&items), model)
+            }
+            Act::FromIter(xs) => {
+                let model: Vec<A::E> = xs.iter().map(|&i| A::elem(i as usize, &mut fresh)).collect();
+                let items: Vec<A::T> = model.iter().map(A::item).collect();
+                (Segtree::<A::T, A::M>::from_iter(items.into_iter()), model)
+            }
+            Act::New(e) => {
+                // `new(n, value)` fills the array with copies of one value (same id for the free algebra)
+                let el = A::elem(*e as usize, &mut fresh);
+                (Segtree::<A::T, A::M>::new(self.n, A::item(&el)), vec![el; self.n])
+            }
+            _ => return Err("not a constructor".into()),
+        };
+        Ok(St { tree, model, fresh })
+    }
+
+    fn actions(&self, s: &St<A>) -> Vec<Act> {
+        let n = self.n as u8;
+        let mut v = vec![];
+        for i in 0..n {
+            for e in 0..A::n_elems() as u8 {
+                v.push(Act::Set(i, e));
+            }
+        }
+        let nm = A::mods().len() as u8;
+        for l in 0..n {
+            for r in l..n {
+                for m in 0..nm {
+                    v.push(Act::Modify(l, r, m));
+                }
+            }
+        }
+        for l in 0..n {
+            for r in l..n {
+                v.push(Act::Ask(l, r));
+            }
+        }
+        if self.mode == Mode::C02 {
+            for p in A::preds(self.n) {
+                if !A::pred_ok(&p, &s.model) {
+                    continue;
+                }
+                for i in 0..n {
+                    v.push(Act::Lb(i, p.clone()));
+                    v.push(Act::LbRev(i, p.clone()));
+                }
+            }
+        } else {
+            v.push(Act::Debug);
+        }
+        v
+    }
+
+    fn step(&self, s: &mut St<A>, a: &Act) -> Result<u64, String> {
+        let judge01 = self.mode == Mode::C01;
+        match a {
+            Act::FromSlice(_) | Act::FromIter(_) | Act::New(_) => Err("constructor inside a history".into()),
+            Act::Set(i, e) => {
+                let el = A::elem(*e as usize, &mut s.fresh);
+                s.tree.set(*i as usize, A::item(&el));
+                s.model[*i as usize] = el;
+                Ok(0)
+            }
+            Act::Modify(l, r, m) => {
+                let md = &A::mods()[*m as usize];
+                s.tree.modify(*l as usize, *r as usize, md);
+                for x in s.model[*l as usize..=*r as usize].iter_mut() {
+                    A::apply(x, md);
+                }
+                Ok(0)
+            }
+            Act::Ask(l, r) => {
+                let got = A::observe(&s.tree.ask(*l as usize, *r as usize));
+                if judge01 {
+                    let exp = A::fold(&s.model[*l as usize..=*r as usize]);
+                    if got != exp {
+                        return Err(format!("ask({l},{r}) returned {:?}; left-to-right fold of the plain array {:?} is {:?}", got, s.model, exp));
+                    }
+                }
+                Ok(fp(&got))
+            }
+            Act::Debug => {
+                let got = s.tree.debug();
+                // the rendering must list exactly n items; its text is the items' own Debug, compared
+                // through a second rendering obtained from single asks on a copy
+                let mut t = s.tree.clone();
+                let again = format!("{:?}", (0..self.n).map(|i| t.ask(i, i)).collect::<Vec<_>>());
+                if got != again {
+                    return Err(format!("debug() rendered {got}, single asks render {again}"));
+                }
+                Ok(0)
+            }
+            Act::Lb(l, p) => {
+                let l = *l as usize;
+                let log: RefCell<Vec<A::Obs>> = RefCell::new(vec![]);
+                let got = s.tree.lower_bound(l, |t: &A::T| {
+                    let o = A::observe(t);
+                    let h = A::holds(p, &o);
+                    log.borrow_mut().push(o);
+                    h
+                });
+                let exp = (l..self.n).find(|&r| A::holds(p, &A::fold(&s.model[l..=r])));
+                if got != exp {
+                    return Err(format!("lower_bound({l}, {:?}) returned {:?}; smallest r with the predicate true on fold([{l}..=r]) of {:?} is {:?}", p, got, s.model, exp));
+                }
+                for o in log.into_inner() {
+                    if !(l..self.n).any(|r| A::fold(&s.model[l..=r]) == o) {
+                        return Err(format!("lower_bound({l}, {:?}) showed the predicate the aggregate {:?}, which is not the in-order merge of [{l}..=r] for any r (array {:?})", p, o, s.model));
+                    }
+                }
+                Ok(fp(&got))
+            }
+            Act::LbRev(r, p) => {
+                let r = *r as usize;
+                let log: RefCell<Vec<A::Obs>> = RefCell::new(vec![]);
+                let got = s.tree.lower_bound_rev(r, |t: &A::T| {
+                    let o = A::observe(t);
+                    let h = A::holds(p, &o);
+                    log.borrow_mut().push(o);
+                    h
+                });
+                let exp = (0..=r).rev().find(|&l| A::holds(p, &A::fold(&s.model[l..=r])));
+                if got != exp {
+                    return Err(format!("lower_bound_rev({r}, {:?}) returned {:?}; largest l with the predicate true on fold([l..={r}]) of {:?} is {:?}", p, got, s.model, exp));
+                }
+                for o in log.into_inner() {
+                    if !(0..=r).any(|l| A::fold(&s.model[l..=r]) == o) {
+                        return Err(format!("lower_bound_rev({r}, {:?}) showed the predicate the aggregate {:?}, which is not the in-order merge of [l..={r}] for any l (array {:?})", p, o, s.model));
+                    }
+                }
+                Ok(fp(&got))
+            }
+        }
+    }
+
+    fn invariant(&self, s: &St<A>) -> Result<(), String> {
+        if s.tree.verif_len() != self.n {
+            return Err(format!("tree reports length {}, constructed with {}", s.tree.verif_len(), self.n));
+        }
+        match self.mode {
+            Mode::C01 => self.check_all_singles(s),
+            // a search must leave the logical array unchanged: in C02 mode the same observation is made
+            // after every transition, but only search transitions can be blamed for it, so it is
+            // judged in `step`'s caller through this invariant as well (non-search actions were
+            // judged by the C01 run on the same state space)
+            Mode::C02 => self.check_all_singles(s),
+        }
+    }
+
+    fn canon(&self, s: &St<A>) -> Vec<u8> {
+        let mut k = Vec::with_capacity(64);
+        for t in s.tree.verif_nodes() {
+            A::encode(t, &mut k);
+        }
+        k.push(0xff);
+        for e in &s.model {
+            A::encode_elem(e, &mut k);
+        }
+        k
+    }
+
+    fn kind(&self, a: &Act) -> &'static str {
+        match a {
+            Act::FromSlice(_) => "from_slice",
+            Act::FromIter(_) => "from_iter",
+            Act::New(_) => "new",
+            Act::Set(..) => "set",
+            Act::Modify(..) => "modify",
+            Act::Ask(..) => "ask",
+            Act::Lb(..) => "lower_bound",
+            Act::LbRev(..) => "lower_bound_rev",
+            Act::Debug => "debug",
+        }
+    }
+}
+
+// ------------------------------------------------------------------------------------------------
+
+struct Part {
+    name: String,
+    n: usize,
+    depth: Option<usize>,
+    res: ExploreResult,
+    wall: f64,
+}
+
+fn run_part<A: Alg>(label: &str, n: usize, mode: Mode, depth: Option<usize>, all_inits: bool, wall: f64) -> Part {
+    let sys = Sys::<A>::new(n, mode, all_inits);
+    let cfg = ExploreCfg { max_depth: depth, max_states: 30_000_000, wall_cap_s: wall };
+    let t0 = std::time::Instant::now();
+    let res = explore(&sys, &cfg);
+    Part { name: label.to_string(), n, depth, res, wall: t0.elapsed().as_secs_f64() }
+}
+
+fn replay_part(label: &str, n: usize, mode: Mode, hist: &[Value]) -> Result<(), String> {
+    macro_rules! go {
+        ($a:ty) => {
+            replay_history(&Sys::<$a>::new(n, mode, true), hist)
+        };
+    }
+    match label {
+        "W" => go!(AlgW),
+        "A3" => go!(AlgA3),
+        "Fr" => go!(AlgFr),
+        "Sum<Z3>" => go!(AlgSumZ3),
+        "SumAdd<Z4>" => go!(AlgSumAddZ4),
+        "Min<u8>" => go!(AlgMinU8),
+        "Max<u8>" => go!(AlgMaxU8),
+        "MinAdd<i64>" => go!(AlgMinAdd),
+        "MaxAdd<i64>" => go!(AlgMaxAdd),
+        "SumAdd<i64>" => go!(AlgSumAdd),
+        "Comb<MinAdd,MaxAdd>" => go!(Comb<AlgMinAdd, AlgMaxAdd>),
+        "Comb<Comb<MinAdd,MaxAdd>,SumAdd>" => go!(Comb<Comb<AlgMinAdd, AlgMaxAdd>, AlgSumAdd>),
+        "Comb<Sum<Z3>,Comb<Min,Max>>" => go!(Comb<AlgSumZ3, Comb<AlgMinU8, AlgMaxU8>>),
+        _ => {
+            eprintln!("replay: unknown algebra {label}");
+            std::process::exit(2)
+        }
+    }
+}
+
+fn confirm_mode(mode: Mode) -> impl Fn(&Value) -> Result<(), String> {
+    move |v: &Value| {
+        if v["kind"] == "from" {
+            return check_from();
+        }
+        let hist: Vec<Value> = v["history"].as_array().unwrap().clone();
+        replay_part(v["algebra"].as_str().unwrap(), v["n"].as_u64().unwrap() as usize, mode, &hist)
+    }
+}
+
+/// `From<T>` of the pair combinator must initialise both components like their own `From`.
+fn check_from() -> Result<(), String> {
+    for v in [-3i64, 0, 7] {
+        let c: Combinator<MinAdd<i64>, MaxAdd<i64>> = Combinator::from(v);
+        if c.0.v != v || c.1.v != v || c.0.md != 0 || c.1.md != 0 {
+            return Err(format!("Combinator::<MinAdd,MaxAdd>::from({v}) = {:?}", c));
+        }
+        let c: Combinator<Combinator<MinAdd<i64>, MaxAdd<i64>>, SumAdd<i64>> = Combinator::from(v);
+        if (c.0).0.v != v || (c.0).1.v != v || c.1.v != v || c.1.len != 1 || c.1.md != 0 {
+            return Err(format!("Combinator::<Combinator<MinAdd,MaxAdd>,SumAdd>::from({v}) = {:?}", c));
+        }
+    }
+    Ok(())
+}
+
+fn main() {
+    let args = Args::parse();
+    quiet_panics();
+    let mode = match args.prop.as_str() {
+        "C01" => Mode::C01,
+        "C02" => Mode::C02,
+        _ => {
+            eprintln!("eng_seg serves C01 and C02");
+            std::process::exit(2)
+        }
+    };
+    let confirm = confirm_mode(mode);
+    if args.replay.is_some() {
+        Run::replay_main(&args, &confirm);
+    }
+    let mut run = Run::new(&args, "seg", "model_checking");
+    let quick = args.tier == Tier::Quick;
+    let wall = if quick { 40.0 } else { 900.0 };
+    let mut parts: Vec<Part> = vec![];
+
+    // Part A: closure over W for every n (all three constructor families as initial states)
+    let max_w = if quick { 6 } else { 7 };
+    for n in 1..=max_w {
+        parts.push(run_part::<AlgW>("W", n, mode, None, true, wall));
+    }
+    // second closing algebra
+    let max_a3 = if quick { 3 } else { 4 };
+    for n in 1..=max_a3 {
+        parts.push(run_part::<AlgA3>("A3", n, mode, None, true, wall));
+    }
+    // Part B: free algebra, bounded depth
+    let fr: &[(usize, usize)] = if quick { &[(1, 4), (2, 4), (3, 4), (4, 3), (5, 3), (6, 3), (7, 2), (8, 2), (9, 2)] } else { &[(1, 5), (2, 5), (3, 5), (4, 4), (5, 4), (6, 4), (7, 3), (8, 3), (9, 3)] };
+    for &(n, d) in fr {
+        parts.push(run_part::<AlgFr>("Fr", n, mode, Some(d), true, wall));
+    }
+    // Part C: built-in items
+    let cn = if quick { 4 } else { 5 };
+    for n in 1..=cn {
+        parts.push(run_part::<AlgSumZ3>("Sum<Z3>", n, mode, None, true, wall));
+        parts.push(run_part::<AlgMinU8>("Min<u8>", n, mode, None, true, wall));
+        parts.push(run_part::<AlgMaxU8>("Max<u8>", n, mode, None, true, wall));
+    }
+    for n in 1..=(if quick { 3 } else { 4 }) {
+        parts.push(run_part::<AlgSumAddZ4>("SumAdd<Z4>", n, mode, None, true, wall));
+    }
+    let bi: &[(usize, usize)] = if quick { &[(1, 4), (2, 4), (3, 3), (4, 2), (5, 2)] } else { &[(1, 5), (2, 5), (3, 4), (4, 3), (5, 3), (6, 2), (7, 2)] };
+    for &(n, bd) in bi {
+        parts.push(run_part::<AlgMinAdd>("MinAdd<i64>", n, mode, Some(bd), true, wall));
+        parts.push(run_part::<AlgMaxAdd>("MaxAdd<i64>", n, mode, Some(bd), true, wall));
+        parts.push(run_part::<AlgSumAdd>("SumAdd<i64>", n, mode, Some(bd), true, wall));
+        parts.push(run_part::<Comb<AlgMinAdd, AlgMaxAdd>>("Comb<MinAdd,MaxAdd>", n, mode, Some(bd), true, wall));
+        parts.push(run_part::<Comb<Comb<AlgMinAdd, AlgMaxAdd>, AlgSumAdd>>("Comb<Comb<MinAdd,MaxAdd>,SumAdd>", n, mode, Some(bd), true, wall));
+    }
+    for n in 1..=(if quick { 3 } else { 4 }) {
+        parts.push(run_part::<Comb<AlgSumZ3, Comb<AlgMinU8, AlgMaxU8>>>("Comb<Sum<Z3>,Comb<Min,Max>>", n, mode, None, true, wall));
+    }
+
+    let mut states = 0u64;
+    let mut transitions = 0u64;
+    let mut table = vec![];
+    let mut all_closed = true;
+    let mut outcomes = 0u64;
+    let mut judged = 0u64;
+    let mut reported: Vec<String> = vec![];
+    for p in &parts {
+        states += p.res.states;
+        transitions += p.res.transitions;
+        outcomes += p.res.distinct_outcomes;
+        let judged_kinds: &[&str] = if mode == Mode::C01 { &["ask", "debug"] } else { &["lower_bound", "lower_bound_rev"] };
+        judged += judged_kinds.iter().map(|k| p.res.per_kind.get(k).copied().unwrap_or(0)).sum::<u64>();
+        if p.depth.is_none() && !p.res.closed {
+            all_closed = false;
+        }
+        if p.res.cap_hit.is_some() && p.depth.is_none() {
+            all_closed = false;
+        }
+        table.push(json!({"algebra": p.name, "n": p.n, "depth_bound": p.depth, "wall_s": (p.wall * 100.0).round() / 100.0, "result": p.res.to_json()}));
+        // one report per algebra: the smallest n that fails (parts are ordered by n within an algebra)
+        if let Some(f) = p.res.violation.as_ref().filter(|_| !reported.contains(&p.name)) {
+            reported.push(p.name.clone());
+            let sig = format!("{}:n={}:{}", p.name, p.n, serde_json::to_string(&f.history).unwrap());
+            run.violation(Violation::new(sig, format!("[{} n={}] {}", p.name, p.n, f.message), json!({"kind": "history", "algebra": p.name, "n": p.n, "history": f.history})));
+        }
+    }
+    if mode == Mode::C01 {
+        if let Err(m) = check_from() {
+            run.violation(Violation::new("combinator_from", m, json!({"kind": "from"})));
+        }
+    }
+    for p in parts.iter().filter(|p| p.name == "W" || p.name == "Fr").rev().take(2) {
+        for h in p.res.sample_histories.iter().take(2) {
+            run.sample(json!({"algebra": p.name, "n": p.n, "history": h}));
+        }
+    }
+    run.cov("states", states);
+    run.cov("transitions", transitions);
+    run.cov("traces_validated_against_impl", transitions);
+    run.cov("judged_transitions", judged);
+    run.cov("distinct_outcomes", outcomes);
+    run.cov("exhaustive", all_closed && !run.has_violations());
+    run.cov("parts", Value::Array(table));
+    run.cov("rule", "per (algebra, n): BFS over the real Segtree's node array (hook verif_nodes) + plain-array model; every set/modify/ask (C02: also every lower_bound/lower_bound_rev for every predicate of the family at every position; C01: debug) applied in every reached state; parts without depth_bound run to closure (histories of any length), parts with depth_bound cover all histories up to that depth; all three constructor families are initial states of the closing parts");
+    run.assume("harness item algebras W, A3, Fr satisfy the monoid-action laws (merge associative with Default as identity, modify distributes over merge, push = apply pending modifiers to both children in order); a node covering one element never records a pending tag (it has no children, so no tree can read it)");
+    run.assume("state identity = encoded node array (all slots, including those the tree never addresses) + plain-array model");
+    // non-vacuity
+    if !run.has_violations() {
+        let w_last = parts.iter().filter(|p| p.name == "W").last().unwrap();
+        if w_last.res.states < 1000 || judged < 10_000 || outcomes < 50 {
+            run.machinery_failure("exploration implausibly small");
+        }
+    }
+    run.finish(&confirm)
+}
